@@ -39,7 +39,16 @@ type Check struct {
 	// Budget is the internal deadline per tier; on expiry the run stops, reports
 	// exhaustive:false and still exits 0.
 	Budget func(tier string) time.Duration
+	// MinRefCompleted is the vacuity floor of a check whose oracle is the reference interpreter:
+	// the share of reference runs that must complete without a fault (and not open).  A run below
+	// it is a HARNESS error (exit 2), never a violation: it depends on the harness alone.
+	// 0 = the default floor (see parent.go).
+	MinRefCompleted float64
 }
+
+// ExtraStats are added to every worker's statistics when it ends (the reference interpreter
+// registers its run counters here; mc does not import it).
+var ExtraStats []func() map[string]int64
 
 // ChildWorker, when set, is what the binary does when it is started with the
 // argument --child-worker (the prefork master of C20 re-executes os.Args[0]).
@@ -409,6 +418,13 @@ func RunWorker(ch *Check, tier string, seed int64, shard, nshards int, resume, u
 	}()
 	ch.Run(c)
 	c.Idle()
+	for _, f := range ExtraStats {
+		for k, v := range f() {
+			if v != 0 {
+				c.res.Stats[k] += v
+			}
+		}
+	}
 	write()
 }
 
